@@ -517,6 +517,9 @@ pub fn write_replay(
 }
 
 pub struct ReplayFile {
+    /// Some(n): sequence mode - runs 0..=n of the batch with base seed `base_seed`, one after another
+    pub sequence_upto: Option<u64>,
+    pub base_seed: u64,
     /// Some(seed): generate mode from the run seed (used for runs that abort the process)
     pub gen_seed: Option<u64>,
     pub property: String,
@@ -535,6 +538,8 @@ pub fn read_replay(path: &str) -> Result<ReplayFile, String> {
         return Err("not a starsim replay file".into());
     }
     Ok(ReplayFile {
+        sequence_upto: v["sequence_upto"].as_u64(),
+        base_seed: v["seed"].as_str().and_then(|s| s.parse().ok()).unwrap_or(DEFAULT_SEED),
         gen_seed: if v["choices"].is_null() { v["seed"].as_str().and_then(|s| s.parse().ok()) } else { None },
         property: v["property"].as_str().unwrap_or("").to_string(),
         thorough: v["tier"] == "thorough",
